@@ -32,8 +32,9 @@ def check(ctx: Ctx) -> None:
     rep.floor("R19.1", "await of _get_server_instance", len([s for s in susp if ctx.is_await_of(s, "_get_server_instance")]), 1)
     for r in ctx.distinct_sites(ctx.nodes(f, lambda n: n.op == "return")):
         v = ctx.vals.resolve(f, r.ast.value) if r.ast.value is not None else None
-        ok = isinstance(v, ast.Call) and ctx.an.scope(f).callee(v).name in CREATE_TASK and v.args and isinstance(v.args[0], ast.Call) and \
-            any(t.name == "_serve_forever" for t in ctx.an.scope(f).callee(v.args[0]).targets)
+        co = ctx.vals.resolve(f, v.args[0]) if isinstance(v, ast.Call) and v.args else None
+        ok = isinstance(v, ast.Call) and ctx.an.scope(f).callee(v).name in CREATE_TASK and isinstance(co, ast.Call) and \
+            any(t.name == "_serve_forever" for t in ctx.an.scope(f).callee(co).targets)
         rep.ob("R19.1", "serve_forever returns the task running _serve_forever()", ok, node=r)
     st = ctx.nodes(f, lambda n: n.op == "assign" and any(e.path == "self._server" for e in ctx.eff.of_node(n)))
     rep.ob("R19.1", "the started server is remembered (is_serving / _serve_forever use it)", bool(st), func=f, construct=st[0] if st else "(self._server not stored)")
